@@ -493,6 +493,25 @@ class Num:
                 for k, v in st.env.items():
                     if k.startswith("&v:") and v == pv:
                         return k[1:] + "."
+        if len(pv.t) == 2 and () in pv.t and pv.t[()] > 0 and self.prog is not None:
+            # the address of a record-typed member of a record a known pointer designates: (p + off)-> is p->member.
+            (m,) = [m_ for m_ in pv.t if m_]
+            rec = st.notes.get("ptype", {}).get(m[0]) if (len(m) == 1 and pv.t[m] == 1) else None
+            off, path = pv.t[()], []
+            while rec:
+                R = self.prog.records.get(rec)
+                nxt = None
+                for f in (R or {}).get("fields", []):
+                    ft = R["_unit"].types[f["t"]]
+                    if ft.get("rec") and not ft.get("ptr") and f["off"] <= off < f["off"] + (ft.get("sz") or 0):
+                        nxt = (f, ft)
+                if nxt is None:
+                    break
+                path.append(nxt[0]["n"])
+                off -= nxt[0]["off"]
+                rec = nxt[1]["rec"]
+                if off == 0:
+                    return "(" + m[0] + ")->" + ".".join(path) + "."
         return "(" + repr(pv) + ")->"
 
     def obj_of(self, st, pv):
@@ -516,7 +535,17 @@ class Num:
 
     # ---- memory cells: the value last read at an address stays what it was until something may have stored there
     def _tracked(self, st, addr):
-        return {m[0] for m, cf in addr.t.items() if len(m) == 1 and cf == 1 and m[0] in st.extent and not m[0].startswith("&")}
+        """the tracked objects an address lies in: pointer atoms with a known extent, directly or through a pointer a
+        summary derived from them (memchr results)"""
+        out = set()
+        der = st.notes.get("derived", {})
+        for m, cf in addr.t.items():
+            if len(m) == 1 and cf == 1:
+                if m[0] in st.extent and not m[0].startswith("&"):
+                    out.add(m[0])
+                elif m[0] in der:
+                    out |= der[m[0]]
+        return out
 
     def cell_read(self, st, addr, size, t):
         cells = st.notes.get("cells", [])
@@ -637,6 +666,10 @@ class Num:
             st.notes["orig"][k] = a  # first read, or re-read after a callee may have changed it: (re)base
         if t.get("ptr") and t.get("rec") and t.get("psz"):
             st.extent[a] = Poly.const(t["psz"])  # a pointer to a record designates (at least) one whole object
+        if t.get("ptr") and t.get("rec"):
+            pt_ = dict(st.notes.get("ptype", {}))
+            pt_[a] = t["rec"]
+            st.notes["ptype"] = pt_
         if k.startswith("g:") and self.prog is not None and t.get("ptr"):
             g = self.prog.globals.get(k[2:])
             if g and g.get("const") is not None and isinstance(g.get("init"), dict) and "str" in g["init"] and g.get("static"):
@@ -645,6 +678,8 @@ class Num:
                 st.add(Poly.const(1) - Poly.atom(a))
         if self.fn.d(n)["k"] == "var" and self.fn.d(n).get("sc") == "param" and t.get("ptr"):
             st.notes.setdefault("patoms", set()).add(a)
+            if self.hooks is not None and hasattr(self.hooks, "noalias") and self.fn.d(n)["n"] in self.hooks.noalias(self.fn.name):
+                st.notes.setdefault("noalias", set()).add(a)  # designates an object nothing else refers to (checked by the rule that says so)
         nn = self.fn.d(n)
         if nn["k"] == "member":
             st.meta[k] = (nn.get("rec"), nn["f"], t.get("c"))
@@ -739,6 +774,9 @@ class Num:
             if not (p1 == p2 or p1.startswith(p2 + ".") or p2.startswith(p1 + ".") or not p1 or not p2):
                 return False  # two different members of one object
         pa = st.notes.get("patoms", ())
+        na = st.notes.get("noalias", ())
+        if na and b1 != b2 and (b1 in na or b2 in na):
+            return False
         if b1 and b2 and b1 != b2:
             a1, a2 = b1.startswith("&"), b2.startswith("&")  # the address of a named local object
             if (b1 in pa or a1) and (b2 in pa or a2):
@@ -2063,6 +2101,8 @@ class Num:
             st.env[k] = Poly.atom(a)
             newv[k] = Poly.atom(a)
             d = direction.get(k)
+            if self.hooks is not None and (self.fn.name, k) in getattr(self.hooks, "monotone_keys", ()):
+                d = 1  # declared by the rule (with its reason) to only grow
             if d == 1:
                 st.add(p0 - newv[k])
             elif d == -1:
